@@ -225,6 +225,11 @@ var composedFragments = []string{"", "+", "-", "5", "10", "0", "08", "1.5", ".",
 	"T", "2020-01-01", "2020", "-02", "10:00", ":30", "Z", "+05:30", "true", "x", "_", "0x1F", "1_000", "%", "\u00a0"}
 
 func genComposedString(s Src) string {
+	if s.Bool() {
+		// [sign] number [gap] [unit]: every part optional, gaps of any width
+		return pickOne(s, []string{"", "", "", "+", "-"}) + pickOne(s, []string{"5", "10", "0", "08", "1.5", ".5", "1.", "1e3", "0x1F", "1_000", "2147483648", ""}) +
+			pickOne(s, []string{"", " ", " ", "  ", "\t", "\n", "\u00a0"}) + pickOne(s, []string{"", "", "days", "day", "wk", "'mg'", "mg", "''", "'", "year", "%"})
+	}
 	n := 1 + s.Intn(4)
 	out := ""
 	for i := 0; i < n; i++ {
